@@ -16,6 +16,7 @@ import QSP.Model.Pipeline
 import QSP.Model.Cli
 import QSP.Model.Interleave
 import QSP.Model.Completion
+import QSP.Model.Decomp
 open QSP QSP.Proto
 
 def bad : String := "bad-op"
@@ -277,6 +278,10 @@ def handle (toks : List String) : String :=
     match par.toNat?, bits.toNat?, j.toNat?, parseRatList r with
     | some p, some b, some j, some r => showExcept showRatList (jacCol p b r j)
     | _, _, _, _ => bad
+  | ["seq.merge", a, b] =>
+    match parseRatList a, parseRatList b with
+    | some a, some b => showRatList (mergeAnglesQ a b)
+    | _, _ => bad
   | ["newton.exit", crit, maxiter, errs] =>
     match parseRat crit, parseRat maxiter, parseRatList errs with
     | some c, some m, some es =>
